@@ -113,7 +113,7 @@ PATHS = {"a": PA, "i": PI, "c": PC, "b": PB, "g": PG, "p": PP, "j": PJ}
 VERS = {"a": A, "i": I, "c": [C], "b": [B], "g": G, "p": [P], "j": J}
 
 
-def run_history(evs, final_a: int, final_i: int):
+def run_history(evs, final_a: int, final_i: int, minimal_tail: int = 0):
     """-> (dump of the long-lived server, dump of a fresh server)"""
     files = {PA: A[0], PB: B, PC: C, PI: I[0], PG: G[0], PP: P, PJ: J[0]}
     srv = ws.reset(SRV, files)
@@ -149,7 +149,8 @@ def run_history(evs, final_a: int, final_i: int):
             ws.FILES[PATHS[f]] = VERS[f][ver]
             notify(srv, "textDocument/didOpen", PATHS[f])
             open_docs.add(PATHS[f])
-    # final state: every existing file is saved (buffers equal the files); closed files are re-read by a save as well
+    # final state: buffers equal the files
+    before = dict(ws.FILES)
     if PA in ws.FILES:
         ws.FILES[PA] = A[final_a]
     if PI in ws.FILES:
@@ -158,41 +159,55 @@ def run_history(evs, final_a: int, final_i: int):
         ws.FILES[PG] = G[(final_a + final_i) % 2]
     if PJ in ws.FILES:
         ws.FILES[PJ] = J[(final_a + 1) % 2]
-    for p in sorted(ws.FILES):
-        if p not in open_docs:
-            notify(srv, "textDocument/didOpen", p)
-            open_docs.add(p)
-        notify(srv, "textDocument/didSave", p)
-    # one more save round: links between files are settled whatever the order of the saves
-    for p in sorted(ws.FILES):
-        notify(srv, "textDocument/didSave", p)
+    if minimal_tail:
+        # only what is needed to get there: a file whose buffer may differ from the disk is saved once, in the given
+        # order; nothing else is touched (a save of an includer or of a dependent file would hide stale state)
+        dirty = [p for p in sorted(ws.FILES, reverse=minimal_tail == 2)
+                 if p not in srv.workspace or "\n".join(srv.workspace[p].contents_split).rstrip("\n") != ws.FILES[p].rstrip("\n")
+                 or before.get(p) != ws.FILES[p]]
+        for p in dirty:
+            if p not in open_docs:
+                notify(srv, "textDocument/didOpen", p)
+                open_docs.add(p)
+            notify(srv, "textDocument/didSave", p)
+    else:
+        # every existing file is saved, twice (closed files are re-read by a save as well)
+        for p in sorted(ws.FILES):
+            if p not in open_docs:
+                notify(srv, "textDocument/didOpen", p)
+                open_docs.add(p)
+            notify(srv, "textDocument/didSave", p)
+        for p in sorted(ws.FILES):
+            notify(srv, "textDocument/didSave", p)
     got = dump(srv)
     final_files = dict(ws.FILES)
-    fresh = ws.reset(SRV2, final_files)
-    for p in sorted(final_files):
-        notify(fresh, "textDocument/didSave", p)
+    fresh = ws.fresh_init(SRV2, final_files)  # the real workspace_init of a freshly started server: no history at all
     want = dump(fresh)
+    ws.FILES.clear()
+    ws.FILES.update(final_files)
     return got, want, final_files
 
 
-def history(e0: int, fa: int) -> bool:
-    """first event and the final version of a.f90 symbolic; the second (and in thorough the third) event and the final
-    version of the include file enumerated inside
-    pre: 0 <= e0 < NEV and 0 <= fa < len(A) and (e0 * 5 + fa) % NPART == PART
+def history(e0: int, fa: int, tail: int) -> bool:
+    """first event, the final version of a.f90 and the way the history ends symbolic (tail 1 / 2: only the files whose
+    buffer or disk content changed are saved, once, in ascending / descending path order; tail 0, thorough only: every
+    file is saved twice); the second (and in thorough the third) event and the final version of the include file
+    enumerated inside
+    pre: 0 <= e0 < NEV and 0 <= fa < len(A) and (0 if THOROUGH else 1) <= tail <= 2 and (e0 * 5 + fa) % NPART == PART
     post: _
     """
     tick("history")
-    e0, fa = conc(e0, 0, NEV - 1), conc(fa, 0, len(A) - 1)
+    e0, fa, tail = conc(e0, 0, NEV - 1), conc(fa, 0, len(A) - 1), conc(tail, 0, 2)
     ok = True
     with NoTracing():
         for e1 in range(-1, NEV):
             for e2 in ([-1] if (e1 == -1 or not THOROUGH) else range(-1, NEV)):
                 for fi in range(len(I)):
                     evs = [EVENTS[e0]] + ([EVENTS[e1]] if e1 >= 0 else []) + ([EVENTS[e2]] if e2 >= 0 else [])
-                    got, want, final_files = run_history(evs, fa, fi)
+                    got, want, final_files = run_history(evs, fa, fi, tail)
                     if got != want:
                         diff = {k: (got.get(k), want.get(k)) for k in want if got.get(k) != want.get(k)}
-                        FAIL.append(f"history {evs} final a={fa} i={fi} (files {sorted(final_files)}): long-lived vs fresh differ in {diff}")
+                        FAIL.append(f"history {evs} tail={tail} final a={fa} i={fi} (files {sorted(final_files)}): long-lived vs fresh differ in {diff}")
                         ok = False
                         break
                 if not ok:
@@ -287,3 +302,32 @@ def _save_step(srv, u):
         srv.update_workspace_file = real_update
         L.path_from_uri = real_pfu
         srv.disable_diagnostics = False
+
+
+# ------------------------------------------------------------------------------------ (I) enumeration order at start-up
+def init_orders(i0: int, fa: int, fi: int) -> bool:
+    """a freshly started server (the real workspace_init) must give the same answers whatever order the directory walk
+    lists the files in: all 7! orders in thorough, every 6th of them in quick (first file symbolic, the rest enumerated), every version of a.f90 and of the
+    include file; compared with the ascending order
+    pre: 0 <= i0 < 7 and 0 <= fa < len(A) and 0 <= fi < len(I) and (i0 * 5 + fa) % NPART == PART
+    post: _
+    """
+    tick("init_orders")
+    i0, fa, fi = conc(i0, 0, 6), conc(fa, 0, len(A) - 1), conc(fi, 0, len(I) - 1)
+    ok = True
+    with NoTracing():
+        import itertools
+
+        files = {PA: A[fa], PB: B, PC: C, PI: I[fi], PG: G[fa % 2], PP: P, PJ: J[fi]}
+        names = sorted(files)
+        want = dump(ws.fresh_init(SRV2, files, names))
+        rest = [n for n in names if n != names[i0]]
+        for perm in itertools.islice(itertools.permutations(rest), (i0 + fa + fi) % 6 if not THOROUGH else 0, None, 1 if THOROUGH else 6):
+            got = dump(ws.fresh_init(SRV, files, [names[i0]] + list(perm)))
+            if got != want:
+                diff = {k: (got.get(k), want.get(k)) for k in want if got.get(k) != want.get(k)}
+                FAIL.append(f"workspace_init over {[names[i0]] + list(perm)} (a={fa}, i={fi}) differs from ascending order in {diff}")
+                ok = False
+                break
+    tock("init_orders")
+    return ok
